@@ -2,6 +2,7 @@ package props
 
 import (
 	"fmt"
+	"go/token"
 	"strings"
 
 	"golang.org/x/tools/go/ssa"
@@ -62,9 +63,21 @@ func (h H) leaderOnlyByMajority(rule string) {
 	se := h.fn("raft:(*candidate).startElection")
 	sfi := h.P.Info(se)
 	h.onlyWriters(rule+" who-may-write", "raft:candidate.votesNeeded", "(*candidate).startElection", "(*candidate).onVoteResult")
+	var vnInit ssa.Instruction
 	for _, s := range h.storesIn(se, "raft:candidate.votesNeeded") {
 		val := sfi.Sym(storeVal(s.Instr)).String()
 		h.C.Check(rule+" quorum-of-latest", "(*candidate).startElection votesNeeded", val == "(Config).quorum(candidate.Raft.storage.configs.Latest)", h.pos(s.Instr), "votesNeeded must be quorum() of the latest configuration; found "+val)
+		vnInit = s.Instr
+	}
+	// ... and every election starts its own count: without the store the
+	// remainder of an earlier election's count (0 after a win) is reused
+	if h.C.Check(rule+" count-reset-per-election", "(*candidate).startElection votesNeeded", vnInit != nil, h.fpos(se), "startElection does not (re)initialise votesNeeded: votes of an earlier election stay counted") {
+		core.Instrs(se, func(in ssa.Instruction) {
+			switch in.(type) {
+			case *ssa.Send, *ssa.Go:
+				h.C.Check(rule+" count-reset-before-replies", "(*candidate).startElection "+strings.TrimPrefix(fmt.Sprintf("%T", in), "*ssa."), core.Dominates(vnInit, in), h.pos(in), "a vote reply can be produced before votesNeeded is initialised for this election")
+			}
+		})
 	}
 	// a fresh reply channel per election; request goroutines send on the channel they were given
 	h.onlyWriters(rule+" who-may-write", "raft:candidate.respCh", "(*candidate).startElection", "(*candidate).release")
@@ -74,6 +87,7 @@ func (h H) leaderOnlyByMajority(rule string) {
 		h.C.Check(rule+" fresh-reply-channel", "(*candidate).startElection respCh", isMk, h.pos(s.Instr), "each election must create a fresh reply channel (replies of an earlier election would be counted)")
 		mk = s.Instr
 	}
+	h.C.Check(rule+" fresh-reply-channel", "(*candidate).startElection respCh (exists)", mk != nil, h.fpos(se), "startElection does not create the election's reply channel")
 	gos := h.P.GoSites(se)
 	for i, g := range gos {
 		site := fmt.Sprintf("(*candidate).startElection go#%d", i+1)
@@ -98,6 +112,9 @@ func (h H) leaderOnlyByMajority(rule string) {
 		// only voters other than self are asked (and so can reply)
 		nv := h.rangeVar(se, "candidate.Raft.storage.configs.Latest.Nodes")
 		h.gate(rule+" ask-voters-only", site, g, core.BoolAtom(nv+".Voter", true))
+		// never itself: it already counted its own vote, and its handler
+		// would grant the same vote a second time (votedFor == self)
+		h.gate(rule+" ask-others-only", site, g, core.MkAtom(nv+".ID", "!=", "candidate.Raft.storage.nid"))
 	}
 	h.C.Floor(rule+" (vote request goroutines)", len(gos), 1)
 	// the self vote is the only reply produced locally, and it is a vote reply with result success for own id
@@ -349,6 +366,25 @@ func (h H) resetTimerOnlyOnGrant(rule string) {
 		h.C.Check(rule, "(*Raft).replyRPC path["+t.Describe()+"]", notVote || granted, t.ExitPos, "the election timer may be reset by a vote request that was not granted")
 	}
 	h.C.Floor(rule+" (timer-resetting paths)", n, 1)
+	// conversely, hearing from the leader always resets the timer: every
+	// handled request that is not a vote request (append, installSnap,
+	// timeoutNow come only from a leader) reports resetTimer, whatever its
+	// result; otherwise a follower that is being repaired campaigns against a
+	// live leader
+	m := 0
+	for _, t := range ts {
+		if t.Exit != "return" || len(t.Ret) != 1 {
+			continue
+		}
+		if evIndex(t, isCall("(*Raft).onRequest")) < 0 {
+			continue
+		}
+		if core.Entails(t.Facts, core.Rel{A: "invoke:rpcType(rpc.req)", Op: "!=", B: vote}, t.Unsigned) {
+			m++
+			h.C.Check(rule+" leader-contact-resets", "(*Raft).replyRPC path["+t.Describe()+"]", t.Ret[0] == "true", t.ExitPos, "a handled request from the leader may leave the election timer running (result "+t.Ret[0]+")")
+		}
+	}
+	h.C.Floor(rule+" (non-vote request paths)", m, 1)
 	// stateLoop resets the follower timer only when replyRPC said so
 	sl := h.fn("raft:(*Raft).stateLoop")
 	rt := h.fn("raft:(*follower).resetTimer")
@@ -392,4 +428,189 @@ func (h H) setTermOnlyOnHigherTerm(rule string) {
 		h.C.Check(rule, "setTerm in "+root, r.OK, h.pos(s.Instr), "setTerm("+arg+") (which clears the recorded vote) is reachable without the term being strictly higher than the node's: "+r.Witness)
 	}
 	h.C.Floor(rule+" (setTerm call sites)", n, 4)
+}
+
+// campaignProgress (C17.5): structural necessary conditions for "a healthy
+// majority elects a leader": entering or timing out in the candidate state
+// starts an election; every election counts the candidate's own vote, re-arms
+// the (randomised) election timer; and leaving the candidate state clears the
+// leadership-transfer permission so that an ordinary later campaign cannot
+// disturb a stable leader.
+func (h H) campaignProgress(rule string) {
+	se := h.fn("raft:(*candidate).startElection")
+	for _, name := range []string{"raft:(*candidate).init", "raft:(*candidate).onTimeout"} {
+		fn := h.fn(name)
+		ok := len(h.P.CallsTo(fn, se)) > 0
+		for _, c := range h.P.CallsTo(fn, se) {
+			for _, r := range core.Returns(fn) {
+				if !core.Dominates(c.(ssa.Instruction), r) {
+					ok = false
+				}
+			}
+		}
+		h.C.Check(rule+" campaign-starts-election", h.name(fn), ok, h.fpos(fn), "entering / timing out in the candidate state must start an election on every path")
+	}
+	// own vote
+	n := 0
+	core.Instrs(se, func(in ssa.Instruction) {
+		if _, ok := in.(*ssa.Send); ok {
+			n++
+		}
+	})
+	h.C.Check(rule+" own-vote-counted", "(*candidate).startElection self-reply", n >= 1, h.fpos(se), "the candidate does not deliver its own vote: a single voter can never win, others need one more vote than a majority")
+	// election timer re-armed with a randomised duration on every path
+	sfi := h.P.Info(se)
+	reset := h.fn("raft:(*safeTimer).reset")
+	calls := h.P.CallsTo(se, reset)
+	ok := len(calls) > 0
+	for _, c := range calls {
+		for _, r := range core.Returns(se) {
+			if !core.Dominates(c.(ssa.Instruction), r) {
+				ok = false
+			}
+		}
+		arg := sfi.Sym(c.Common().Args[len(c.Common().Args)-1]).String()
+		h.C.Check(rule+" election-timeout-randomised", "(*candidate).startElection timer.reset", strings.Contains(arg, "(randTime).duration("), h.pos(c.(ssa.Instruction)), "the election timeout must come from randTime.duration (split votes would repeat forever); found "+arg)
+	}
+	h.C.Check(rule+" election-timer-rearmed", "(*candidate).startElection", ok, h.fpos(se), "startElection must re-arm the election timer on every path")
+	// the follower's election timer is randomised too
+	for _, spec := range []string{"raft:(*follower).resetTimer"} {
+		fn := h.fn(spec)
+		fi := h.P.Info(fn)
+		cs := h.P.CallsTo(fn, reset)
+		for _, c := range cs {
+			arg := fi.Sym(c.Common().Args[len(c.Common().Args)-1]).String()
+			h.C.Check(rule+" election-timeout-randomised", h.name(fn)+" timer.reset", strings.Contains(arg, "(randTime).duration("), h.pos(c.(ssa.Instruction)), "the election timeout must come from randTime.duration; found "+arg)
+		}
+		h.C.Floor(rule+" (timer.reset in "+h.name(fn)+")", len(cs), 1)
+	}
+	// duration(min) lies in [min, 2*min) and is drawn from the random source
+	du := h.fn("raft:(randTime).duration")
+	dfi := h.P.Info(du)
+	for _, r := range core.Returns(du) {
+		v := dfi.Sym(r.Results[0]).String()
+		ok := strings.HasPrefix(v, "($1 + (") && strings.HasSuffix(v, " % $1))") && strings.Contains(v, "math/rand")
+		h.C.Check(rule+" random-duration-shape", "(randTime).duration return", ok, h.pos(r), "duration(min) must be min + random % min; found "+v)
+	}
+	// transfer permission cleared on leaving the candidate state
+	rel := h.fn("raft:(*candidate).release")
+	rfi := h.P.Info(rel)
+	cleared := false
+	for _, s := range h.storesIn(rel, "raft:candidate.transfer") {
+		if rfi.Sym(storeVal(s.Instr)).String() == "false" {
+			cleared = true
+			for _, r := range core.Returns(rel) {
+				if !core.Dominates(s.Instr, r) {
+					cleared = false
+				}
+			}
+		}
+	}
+	h.C.Check(rule+" transfer-permission-cleared", "(*candidate).release", cleared, h.fpos(rel), "leaving the candidate state must clear candidate.transfer: a later ordinary campaign would carry the leadership-transfer permission and depose a live leader")
+	h.onlyWriters(rule+" who-may-write", "raft:candidate.transfer", "(*candidate).release", "(*Raft).onTimeoutNowRequest")
+}
+
+// stepDownOnlyWithoutQuorum (C17.7): the leader gives up leadership in
+// checkQuorum only when fewer than floor(voters/2)+1 voters are reachable,
+// where it counts itself and every voter whose replication has contact, over
+// the voters of the latest configuration. A leader that steps down with an
+// exact majority reachable makes a cluster with one node down unavailable.
+func (h H) stepDownOnlyWithoutQuorum(rule string) {
+	fn := h.fn("raft:(*leader).checkQuorum")
+	fi := h.P.Info(fn)
+	setState := h.fn("raft:(*Raft).setState")
+	// the quorum comparison
+	var votersPhi, reachPhi *core.Expr
+	isNoQuorum := func(a core.Atom) bool {
+		// majority > reachable   or   reachable < majority
+		var maj, rch *core.Expr
+		switch a.Op {
+		case ">":
+			maj, rch = a.LE, a.RE
+		case "<":
+			maj, rch = a.RE, a.LE
+		case "<=", ">=":
+			// reachable <= voters/2  (add == 0)
+			if a.Op == "<=" {
+				maj, rch = a.RE, a.LE
+			} else {
+				maj, rch = a.LE, a.RE
+			}
+			_, den, off, add, ok := core.LinNorm(maj)
+			if ok && den == 2 && off == 0 && add == 0 && rch != nil && rch.Op == "phi" {
+				votersPhi, reachPhi = maj, rch
+				return true
+			}
+			return false
+		default:
+			return false
+		}
+		if maj == nil || rch == nil || rch.Op != "phi" {
+			return false
+		}
+		_, den, off, add, ok := core.LinNorm(maj)
+		if ok && den == 2 && off == 0 && add == 1 {
+			votersPhi, reachPhi = maj, rch
+			return true
+		}
+		return false
+	}
+	n := 0
+	for k, c := range h.P.CallsTo(fn, setState) {
+		if h.argStr(c, 1) != h.constStr("raft:Follower") {
+			continue
+		}
+		n++
+		r := fi.MustCross(c, isNoQuorum)
+		h.C.Check(rule+" step-down-gate", h.site(fn, setState, k), r.OK, h.pos(c), "the leader can step down although floor(voters/2)+1 voters are reachable: "+r.Witness)
+	}
+	h.C.Floor(rule+" (step-down sites in checkQuorum)", n, 1)
+	if votersPhi == nil || reachPhi == nil {
+		return
+	}
+	// the two counters: every increment of `voters` is under n.Voter of the
+	// latest configuration; `reachable` is incremented for self and for every
+	// voter with contact, i.e. on the edges (key == nid) and IsZero(noContact)
+	nv := h.rangeVar(fn, "leader.Raft.storage.configs.Latest.Nodes")
+	h.C.Check(rule+" counts-latest-config", "(*leader).checkQuorum range", nv != "", h.fpos(fn), "checkQuorum must count over the nodes of the latest configuration")
+	incs := 0
+	core.Instrs(fn, func(in ssa.Instruction) {
+		b, ok := in.(*ssa.BinOp)
+		if !ok || b.Op != token.ADD {
+			return
+		}
+		if c, isC := b.Y.(*ssa.Const); !isC || c.Int64() != 1 {
+			return
+		}
+		if _, isPhi := b.X.(*ssa.Phi); !isPhi {
+			return
+		}
+		incs++
+		r := fi.MustCross(b, func(a core.Atom) bool { return a.Op == "true" && a.L == nv+".Voter" })
+		h.C.Check(rule+" counts-voters-only", fmt.Sprintf("(*leader).checkQuorum increment#%d", incs), r.OK, h.pos(b), "a node that is not a voter is counted: "+r.Witness)
+	})
+	h.C.Check(rule+" two-counters", "(*leader).checkQuorum", incs == 2, h.fpos(fn), fmt.Sprintf("expected the voters and reachable counters, found %d increments", incs))
+	// self and contacted voters count as reachable: the block reached by
+	// (key == nid) true and by IsZero(noContact) true increments a counter
+	okSelf, okContact := false, false
+	for _, ea := range fi.AllEdgeAtoms() {
+		if ea.A.Op == "==" && strings.HasSuffix(ea.A.L, ".key") && ea.A.R == "leader.Raft.storage.nid" || ea.A.Op == "==" && strings.HasSuffix(ea.A.R, ".key") && ea.A.L == "leader.Raft.storage.nid" {
+			okSelf = okSelf || blockIncrements(ea.E.From.Succs[ea.E.Succ])
+		}
+		if ea.A.Op == "true" && strings.HasPrefix(ea.A.L, "(time.Time).IsZero(") && strings.HasSuffix(ea.A.L, ".status.noContact)") {
+			okContact = okContact || blockIncrements(ea.E.From.Succs[ea.E.Succ])
+		}
+	}
+	h.C.Check(rule+" self-and-contacted-are-reachable", "(*leader).checkQuorum", okSelf && okContact, h.fpos(fn), fmt.Sprintf("the leader itself (%v) and every voter with contact (%v) must count as reachable", okSelf, okContact))
+}
+
+func blockIncrements(b *ssa.BasicBlock) bool {
+	for _, in := range b.Instrs {
+		if bo, ok := in.(*ssa.BinOp); ok && bo.Op == token.ADD {
+			if c, isC := bo.Y.(*ssa.Const); isC && c.Int64() == 1 {
+				return true
+			}
+		}
+	}
+	return false
 }
